@@ -19,11 +19,18 @@ TRUSTED = [
     "harness/refeval.py: independent evaluator used as the property-level oracle (value of the formula under the assignment, defaults for absent symbols)",
     "core/Sem.v: semantic specification the theorems are stated against; the semantic theorems of props/C02.v "
     "(get_value_exact / total / partial_sound / satisfies_iff, all `_partial`) are the composition of C05's substitution lemma with "
-    "C01's simplify_sound / fold_complete on their common fragment `gfrag` (proofs/EagerModelSem_proofs.v)",
+    "C01's simplify_sound / fold_complete on their common fragment `gfrag` (proofs/EagerModelSem_proofs.v); the `_wide_partial` "
+    "theorems (proofs/EagerModelSemWide_proofs.v) do the same on `gwfrag` = every operator except Pow, function applications and "
+    "quantifiers (all string operators, array select / store / values / equality, ToReal, every BV operator), with a total "
+    "substitution lemma, C05's typed substitution lemma and C01's fold_complete_wide",
 ]
 ASSUME = [
     "quantifier-free, UF-free formulas; assignments map symbols to constants of their sort",
     "interpretations under which an Int/Real division by zero is evaluated are skipped by the oracle (the property leaves them unconstrained)",
+    "theorems: `nodiv0 I f` (no divisor evaluates to 0) and, for the `_wide_partial` ones, `strlim I f`: every str.to_int argument has at most "
+    "4300 characters and every str.from_int argument is below 10^4300 (CPython's int <-> str conversion limit, modelled in core/PyPrims.v; "
+    "beyond it the simplifier leaves the node unfolded and get_value raises); models assign scalar constants (array-sorted symbols have no "
+    "default and are not assigned in the theorems; the harness does assign constant arrays and checks them against the reference evaluator)",
 ]
 
 OK_DEF = """
